@@ -41,6 +41,10 @@ func init() {
 		// sign>0: +Inf; sign<0: -Inf; sign==0: either
 		return ts.BAnd(inf, ts.BOr(ts.BAnd(ts.BNot(sgt), ts.BNot(slt)), ts.BOr(ts.BAnd(sgt, pos), ts.BAnd(slt, neg))))
 	})
+	for name, mode := range map[string]int{"Trunc": 0, "Floor": 1, "Ceil": 2} {
+		mode := mode
+		reg("math."+name, func(ip *Interp, fr *frame, args []Value) Value { return ip.ts.FRound(asTerm(args[0]), mode) })
+	}
 	reg("math.Abs", func(ip *Interp, fr *frame, args []Value) Value {
 		return ip.ts.Bin(OpAnd, asTerm(args[0]), Const(64, math.MaxInt64))
 	})
@@ -51,6 +55,38 @@ func init() {
 	})
 
 	// ---- unicode ----
+	// unicode.Is / In / IsOneOf over the package's own tables (read as native table handles)
+	tabName := func(ip *Interp, v Value) string {
+		if n, ok := v.(*NativeObj); ok && n != nil && n.kind == "rangetable" {
+			return "table:" + n.obj.(string)
+		}
+		ip.ex.endPath("unsupported", "unicode table that is not one of package unicode's variables")
+		return ""
+	}
+	reg("unicode.Is", func(ip *Interp, fr *frame, args []Value) Value {
+		r := asTerm(args[1])
+		name := tabName(ip, args[0])
+		if r.IsConst() {
+			return Bool(unicode.Is(hostRangeTable(strings.TrimPrefix(name, "table:")), rune(int32(r.k))))
+		}
+		return ip.runeClass(r, name)
+	})
+	inAny := func(ip *Interp, r *Term, tabs []Value) Value {
+		res := tFalse
+		for _, tv := range tabs {
+			name := tabName(ip, tv)
+			var c *Term
+			if r.IsConst() {
+				c = Bool(unicode.Is(hostRangeTable(strings.TrimPrefix(name, "table:")), rune(int32(r.k))))
+			} else {
+				c = ip.runeClass(r, name)
+			}
+			res = ip.ts.BOr(res, c)
+		}
+		return res
+	}
+	reg("unicode.In", func(ip *Interp, fr *frame, args []Value) Value { return inAny(ip, asTerm(args[0]), args[1].(Slice).s) })
+	reg("unicode.IsOneOf", func(ip *Interp, fr *frame, args []Value) Value { return inAny(ip, asTerm(args[1]), args[0].(Slice).s) })
 	reg("unicode.IsSpace", func(ip *Interp, fr *frame, args []Value) Value { return ip.runeClass(asTerm(args[0]), "space") })
 	reg("unicode.IsLetter", func(ip *Interp, fr *frame, args []Value) Value { return ip.runeClass(asTerm(args[0]), "letter") })
 	reg("unicode.IsDigit", func(ip *Interp, fr *frame, args []Value) Value { return ip.runeClass(asTerm(args[0]), "digit") })
@@ -256,6 +292,11 @@ func init() {
 		return cur
 	})
 	reg("(*strings.Builder).Len", func(ip *Interp, fr *frame, args []Value) Value {
+		_, cur := sbGet(args)
+		return Const(64, uint64(ip.strLen(cur)))
+	})
+	reg("(*strings.Builder).Cap", func(ip *Interp, fr *frame, args []Value) Value {
+		// capacity is not tracked: the length is a lower bound (callers only grow again when it is 0)
 		_, cur := sbGet(args)
 		return Const(64, uint64(ip.strLen(cur)))
 	})
@@ -701,6 +742,30 @@ func tableRanges(tabs ...*unicode.RangeTable) rangeList {
 	return out
 }
 
+var (
+	classMu    sync.Mutex
+	tableCache = map[string]rangeList{}
+)
+
+// hostRangeTable resolves the name of an exported *unicode.RangeTable variable.
+func hostRangeTable(name string) *unicode.RangeTable {
+	alias := map[string]string{"Letter": "L", "Mark": "M", "Number": "N", "Punct": "P", "Symbol": "S", "Space": "Z", "Other": "C",
+		"Digit": "Nd", "Upper": "Lu", "Lower": "Ll", "Title": "Lt", "Control": "Cc"}
+	if a, ok := alias[name]; ok {
+		name = a
+	}
+	if t, ok := unicode.Categories[name]; ok {
+		return t
+	}
+	if t, ok := unicode.Scripts[name]; ok {
+		return t
+	}
+	if t, ok := unicode.Properties[name]; ok {
+		return t
+	}
+	return nil
+}
+
 func initClasses() {
 	classRanges = map[string]rangeList{
 		"space":  tableRanges(unicode.White_Space),
@@ -758,7 +823,17 @@ func (ip *Interp) runeClass(r *Term, class string) *Term {
 		}
 		return res
 	}
-	rl := classRanges[class]
+	rl, okc := classRanges[class]
+	if !okc {
+		// "table:<name>": any table of package unicode (categories, scripts, properties)
+		classMu.Lock()
+		rl, okc = tableCache[class]
+		if !okc {
+			rl = tableRanges(hostRangeTable(strings.TrimPrefix(class, "table:")))
+			tableCache[class] = rl
+		}
+		classMu.Unlock()
+	}
 	if _, hi, ok := urange(r); ok && hi <= 0xFF {
 		return inRanges(rl, 0, 0xFF)
 	}
@@ -994,7 +1069,9 @@ func (ip *Interp) emptyWidthOK(op syntax.EmptyOp, b []*Term, pos int) bool {
 			return false
 		}
 		t := b[i]
-		in := func(lo, hi byte) *Term { return ts.BAnd(ts.Cmp(OpUle, byteConst[lo], t), ts.Cmp(OpUle, t, byteConst[hi])) }
+		in := func(lo, hi byte) *Term {
+			return ts.BAnd(ts.Cmp(OpUle, byteConst[lo], t), ts.Cmp(OpUle, t, byteConst[hi]))
+		}
 		return ip.ex.Branch(ts.BOr(ts.BOr(in('a', 'z'), in('A', 'Z')), ts.BOr(in('0', '9'), ts.Eq(t, byteConst['_']))))
 	}
 	if op&syntax.EmptyBeginText != 0 && pos != 0 {
